@@ -239,6 +239,19 @@ def exec_call(c):
             return hdr
         return outcome(f, lambda: got), None                   # records yielded before a failure are observable
 
+    if api == "block_reader":
+        from fastavro import block_reader
+        bio = io.BytesIO(c["data"])
+        got = []
+
+        def f():
+            br = block_reader(bio, c.get("reader_schema"))
+            hdr = [br.codec, br.writer_schema, br.metadata]
+            for blk in br:
+                got.append([blk.num_records, blk.codec, [canon(x) for x in blk]])
+            return hdr
+        return outcome(f, lambda: got), None
+
     if api == "reader_open":
         # readers are lazy: the header is parsed now, the records when the object is consumed (a later call)
         bio = io.BytesIO(c["data"])
